@@ -199,16 +199,16 @@ def render(effects):
     return out
 
 
-def coalesce(changes):
-    """One callback batch: flags of successive changes to the same (path, item) are OR-ed into one item
-    that keeps the position of the first of them."""
-    order = []
+def coalesce(changes, place="last"):
+    """One callback batch: flags of successive changes to the same (path, item) are OR-ed into one item.
+    place='last':  the item stands where its most recent change stands (FSEvents.h: "each event ID comes from the
+                   most recent event being reported" and IDs increase within a callback);
+    place='first': the item keeps the position of its first change (permissive alternative)."""
     acc = {}
-    for path, ident, flags in changes:
+    pos = {}
+    for n, (path, ident, flags) in enumerate(changes):
         key = (path, ident)
-        if key in acc:
-            acc[key] |= flags
-        else:
-            acc[key] = flags
-            order.append(key)
-    return [(p, i, acc[(p, i)]) for p, i in order]
+        acc[key] = acc.get(key, 0) | flags
+        if place == "last" or key not in pos:
+            pos[key] = n
+    return [(p, i, acc[(p, i)]) for (p, i) in sorted(pos, key=pos.get)]
